@@ -146,6 +146,49 @@ var activities = []activity{
 	{"tagging job body of a tag that filters on cached converter output", []string{"api:import:P1+P2", "drain", "api:addtag:tag/p=cport:1", "drain", "api:converters:tag/p=conv", "drain", "api:addtag:tag/d=cdata.conv:FOO"}, "tag", true, false, nil, nil},
 	{"conversion job body whose converter process dies on one of two streams", []string{"api:import:P1+P2", "drain", "api:addtag:tag/p=cport:1", "drain", "api:converters:tag/p=conv"}, "convert", true, false, nil, map[string]string{"VCONV_DIE_ON": "FOO1"}},
 	{"conversion job body whose converter breaks the protocol on one of two streams", []string{"api:import:P1+P2", "drain", "api:addtag:tag/p=cport:1", "drain", "api:converters:tag/p=conv"}, "convert", true, false, nil, map[string]string{"VCONV_BAD_ON": "FOO2"}},
+	// a second API client: its calls overlap with the calls of the table (two request handlers of the web server)
+	{"second client: converter reset, detach and attach", []string{"api:import:P1+P2", "drain", "api:addtag:tag/p=cport:1", "drain", "api:converters:tag/p=conv", "drain"}, "", true, false, clientConverters, nil},
+	{"second client: tag add, query edit, mark add/remove, delete", []string{"api:import:P1+P2", "drain", "api:addtag:tag/d=cdata:foo", "drain", "api:addtag:tag/p=cport:1", "drain"}, "", false, false, clientTags, nil},
+	{"second client: listings, views and searches", []string{"api:import:P1+P2", "drain", "api:addtag:tag/d=cdata:foo", "drain", "api:addtag:tag/p=cport:1", "drain", "api:converters:tag/p=conv", "drain"}, "", true, false, clientReads, nil},
+}
+
+func clientConverters(w *svc.World) {
+	for i := 0; i < 60; i++ {
+		w.Mgr.ResetConverter("conv")
+		w.Mgr.ListConverters()
+		if i%4 == 1 {
+			w.Mgr.UpdateTag("tag/p", manager.UpdateTagOperationSetConverter(nil))
+			w.Mgr.UpdateTag("tag/p", manager.UpdateTagOperationSetConverter([]string{"conv"}))
+		}
+	}
+}
+
+func clientTags(w *svc.World) {
+	for i := 0; i < 60; i++ {
+		n := fmt.Sprintf("tag/y%d", i)
+		w.Mgr.AddTag(n, "#000", "sport:53 tag:p")
+		w.Mgr.UpdateTag(n, manager.UpdateTagOperationUpdateQuery("sport:80"))
+		if i == 0 {
+			w.Mgr.AddTag("mark/k", "#000", "id:0")
+		}
+		w.Mgr.UpdateTag("mark/k", manager.UpdateTagOperationMarkAddStream([]uint64{1}))
+		w.Mgr.UpdateTag("mark/k", manager.UpdateTagOperationMarkDelStream([]uint64{1}))
+		w.Mgr.DelTag(n)
+		w.Mgr.ListTags()
+	}
+}
+
+func clientReads(w *svc.World) {
+	q, _ := query.Parse("tag:d or cport:1 sort:id")
+	for i := 0; i < 60; i++ {
+		w.Mgr.Status()
+		w.Mgr.ListTags()
+		w.Mgr.ListConverters()
+		w.Mgr.KnownPcaps()
+		v := w.Mgr.GetView()
+		v.SearchStreams(context.Background(), q, func(sc manager.StreamContext) error { sc.AllTags(); sc.Data("conv"); return nil }, manager.Limit(100, 0), manager.PrefetchAllTags())
+		v.Release()
+	}
 }
 
 type call struct {
